@@ -60,15 +60,33 @@ def evaluate(case, out):
         out.cls("adaptive")
     test = nonneg.make_test(cfg)
 
-    def hist(v):
-        p, h = test.test(np.array(v, dtype=float))
+    def hist(v, t=None):
+        p, h = (t or nonneg.make_test(cfg)).test(nonneg.natural(v))
         return as_list(h, len(v))
 
     try:
         hx, hx2, hk = hist(x), hist(x2), hist(x[:k])
+        # the same object used for successive rounds (as Assertion.test is): first the k draws, then all of them
+        reused = nonneg.make_test(cfg)
+        hk_r = hist(x[:k], reused)
+        hx_r = hist(x, reused)
+        # and the same sample held as floats instead of its natural (possibly integer) dtype
+        hx_f = as_list(nonneg.make_test(cfg).test(np.array(x, dtype=float))[1], len(x))
     except Exception as e:  # noqa
         out.lib_exception("test", e)
         return
+    for j in range(len(x)):
+        if not out.expect(_same(hx[j], hx_r[j]), "history-depends-on-an-earlier-call-on-the-same-object", lambda: (j, hx[j], hx_r[j], k)):
+            break
+    for j in range(k):
+        if not out.expect(_same(hk[j], hk_r[j]), "first-round-history-differs-on-a-fresh-object", lambda: (j, hk[j], hk_r[j])):
+            break
+    for j in range(len(x)):
+        if not out.expect(_same(hx[j], hx_f[j]) or abs(hx[j] - hx_f[j]) <= 1e-12 * max(abs(hx[j]), 1e-300),
+                          "history-depends-on-the-dtype-of-the-sample", lambda: (j, hx[j], hx_f[j])):
+            break
+    if all(float(v).is_integer() for v in x[:k]) and not all(float(v).is_integer() for v in x2):
+        out.cls("integer-prefix-fractional-tail")
     # (a) agreement on the common prefix
     for j in range(k):
         if not out.expect(_same(hx[j], hx2[j]), "history-depends-on-later-draws", lambda: (j, hx[j], hx2[j], k)):
@@ -93,7 +111,7 @@ def evaluate(case, out):
         else:
             out.expect(a == b, "truncation-changes-last-entry-iid", lambda: (a, b, k))
     # (c) estimator / bet sequences
-    xa, xa2 = np.array(x, dtype=float), np.array(x2, dtype=float)
+    xa, xa2 = nonneg.natural(x), nonneg.natural(x2)
     for name, fn in (("estim", test.estim), ("bet", test.bet)):
         if name == "estim" and cfg["test"] != "alpha_mart":
             continue
@@ -107,3 +125,9 @@ def evaluate(case, out):
         for j in range(min(k + 1, len(e1), len(e2))):
             if not out.expect(_same(e1[j], e2[j]), f"{name}-anticipates", lambda: (j, e1[j], e2[j], k)):
                 break
+        try:  # a second request on the same object must give the same sequence
+            e3 = as_list(fn(xa), len(x))
+        except Exception as e:  # noqa
+            out.lib_exception(name, e)
+            return
+        out.expect(all(_same(a, b) for a, b in zip(e1, e3)), f"{name}-changes-between-calls-on-the-same-object", lambda: (e1[:5], e3[:5]))
